@@ -1776,8 +1776,12 @@ class Interp:
         self.cut_loop(s, fr, spec, guard=lambda: self.run.truth(self.ev(s.test, fr)), pre_body=None, post_body=None)
 
     def s_For(self, s, fr):
-        it = self.ev(s.iter, fr)
         spec = self.ctx.reg.loop_spec(fr.fi, self.loop_ordinal(s, fr)) if fr.fi is not None else None
+        if spec is not None and spec.get("abstract"):
+            # abstracted loop: neither the iterable nor the body is executed (recorded as an assumption by cut_loop)
+            self.cut_loop(s, fr, spec, (lambda: False), None, None, extra_havoc=sorted(self.assigned_names([s.target])))
+            return
+        it = self.ev(s.iter, fr)
         if spec is None:
             items = self.iter_concrete(it, s)
             for x in items:
